@@ -528,6 +528,27 @@ namespace
         c07_run_orders(R, rng, g, ref, *grid, n_orders);
     }
 
+    // wide grids: every column count in a range (the (row, col) accessors convert flat indices back to rows and
+    // columns; few rows keep it cheap)
+    void c07_case_wide(Runner& R, Rng& rng, std::size_t ncols)
+    {
+        if (family != Family::raster)
+            return;
+        GridSpec g;
+        g.rows = 2 + rng.below(2);
+        g.cols = ncols;
+        g.dy = rng.chance(0.5) ? 1.0 : rng.logu(0.05, 50.0);
+        g.dx = rng.chance(0.5) ? g.dy : rng.logu(0.05, 50.0);
+        NS l = rand_border(rng, true), r = rand_border(rng, true), t = rand_border(rng, true), b = rand_border(rng, true);
+        if (l == NS::looped || r == NS::looped)
+            l = r = NS::looped;
+        if (t == NS::looped || b == NS::looped)
+            t = b = NS::looped;
+        g.border = { { l, r, t, b } };
+        R.count("c07.wide_grids");
+        c07_case_structured(R, rng, g, false, 1);
+    }
+
     void c07_case_random(Runner& R, Rng& rng, std::size_t max_side)
     {
         GridGenOpts o;
@@ -759,7 +780,26 @@ namespace
         return best;
     }
 
+    GridSpec gen_mesh_c18_unscaled(Rng& rng, std::string& cls, std::size_t max_side);
+
+    // coordinates in any unit: the same shapes scaled by 1e-6 .. 1e6 (metres vs kilometres vs degrees)
     GridSpec gen_mesh_c18(Rng& rng, std::string& cls, std::size_t max_side)
+    {
+        GridSpec g = gen_mesh_c18_unscaled(rng, cls, max_side);
+        if (rng.chance(0.4))
+        {
+            double sc = rng.logu(1e-6, 1e6);
+            for (auto& p : g.pts)
+            {
+                p[0] *= sc;
+                p[1] *= sc;
+            }
+            cls += sc < 1e-3 ? "/tiny_scale" : (sc > 1e3 ? "/huge_scale" : "/scaled");
+        }
+        return g;
+    }
+
+    GridSpec gen_mesh_c18_unscaled(Rng& rng, std::string& cls, std::size_t max_side)
     {
         for (int tries = 0; tries < 100; ++tries)
         {
@@ -1028,7 +1068,10 @@ main(int argc, char** argv)
         return total / ns + (s < total % ns ? 1 : 0);
     };
     const long n_enum_local = static_cast<long>(local_count(n_enum) / enumdiv);
-    const long n_random = a.geti("random", thorough ? 400 : 40);
+    // column counts 7 .. 7 + wide_total - 1, split over the shards (C07 only)
+    const long wide_total = do07 && family == Family::raster ? a.geti("wide", thorough ? 1100 : 300) : 0;
+    const long n_wide = (wide_total + a.nshards - 1) / a.nshards;
+    const long n_random = a.geti("random", thorough ? 400 : 40) + n_wide;
     Args a2 = a;
     a2.cases = n_enum_local + n_random;
     Runner R2(a2, "h_grid", grid_name);
@@ -1064,7 +1107,10 @@ main(int argc, char** argv)
                            else
                            {
                                R_.count("random_cases");
-                               if (do07 && (!do17 || rng.chance(0.5)))
+                               const long widx = k - n_enum_local;  // 0.. : the first `n_wide` random cases sweep the column counts
+                               if (do07 && family == Family::raster && widx < n_wide)
+                                   c07_case_wide(R_, rng, static_cast<std::size_t>(7 + (widx * a.nshards + a.shard)));
+                               else if (do07 && (!do17 || rng.chance(0.5)))
                                    c07_case_random(R_, rng, max_side);
                                else if (do17)
                                {
